@@ -1,4 +1,4 @@
-import TaskctlVerif.Proofs.SchedLoop
+import TaskctlVerif.Proofs.SchedFair
 import TaskctlVerif.Props.C02
 /-!
 # C03 — every pipeline run terminates and runs each eligible stage exactly once
@@ -12,6 +12,15 @@ loop strictly decreases whenever nothing is in flight and something still waits
 (`C03_weight_init`), so under the stated fairness assumption (the loop keeps being scheduled; every
 started `Run` returns) the run is over after at most `3n` weight-decreasing steps; when the weight is
 zero the run is terminal (`C03_weight_zero_terminal`).
+
+The argument is also closed for one concrete fair schedule (`Proofs/SchedFair.lean`): a *round* lets
+every task in flight return (with the outcomes `okf` picks) and then lets the loop make one complete
+pass.  `C03_round_decreases`: unless the run is over, every round strictly decreases the total
+weight — from **every** reachable state with the loop between passes, not only from the start, so
+whatever interleaving happened before, fairness from then on finishes the run.
+`C03_fair_terminates`: from the start, `3n + 1` rounds suffice, for every acyclic configuration and
+every outcome assignment; the state reached is a reachable one (`C03_fair_is_interleaving`), so
+everything proved for arbitrary interleavings (C01, C02, `C03_once`, `C03_terminal`) applies to it.
 -/
 namespace Sched
 
@@ -106,23 +115,7 @@ theorem C03_terminal (c okf rank) (hac : Acyclic c rank) (hne : ∀ s, c.cond s 
 
 /-! ### the variant -/
 
-/-- per-stage weight -/
-def weight (σ : St) (s : Nat) : Nat :=
-  match σ.g s with
-  | .inRun => 2
-  | .afterErr => 1
-  | .fin => 0
-  | .none => if σ.status s = .waiting then 3 else 0
-
 theorem C03_weight_init (s : Nat) : weight init s = 3 := by simp [weight, init]
-
-theorem weight_cases (σ : St) (s : Nat) :
-    (σ.g s = .inRun ∧ weight σ s = 2) ∨ (σ.g s = .afterErr ∧ weight σ s = 1) ∨
-    (σ.g s = .fin ∧ weight σ s = 0) ∨ (σ.g s = .none ∧ σ.status s = .waiting ∧ weight σ s = 3) ∨
-    (σ.g s = .none ∧ σ.status s ≠ .waiting ∧ weight σ s = 0) := by
-  unfold weight
-  cases h : σ.g s <;> simp
-  by_cases hw : σ.status s = .waiting <;> simp [hw]
 
 /-- **no action ever increases the weight of any stage** -/
 theorem C03_weight_mono (c : Cfg) (σ : St) (a : Act) (hi : Inv c σ) (s : Nat) :
@@ -164,81 +157,6 @@ theorem C03_weight_zero_terminal (c : Cfg) (σ : St) (hi : Inv c σ) (h : ∀ s,
 
 /-! ### progress of the loop (deadlock-freedom) -/
 
-theorem exists_min_waiting (n : Nat) (rank : Nat → Nat) (W : Nat → Prop) :
-    ∀ r, (∃ s, s < n ∧ W s ∧ rank s ≤ r) →
-      ∃ s, s < n ∧ W s ∧ ∀ t, t < n → W t → rank s ≤ rank t := by
-  intro r
-  induction r with
-  | zero =>
-    rintro ⟨s, hs, hw, hr⟩
-    exact ⟨s, hs, hw, fun t _ _ => by omega⟩
-  | succ r ih =>
-    rintro ⟨s, hs, hw, hr⟩
-    by_cases h : ∃ s, s < n ∧ W s ∧ rank s ≤ r
-    · exact ih h
-    · refine ⟨s, hs, hw, fun t ht hwt => ?_⟩
-      have : ¬ rank t ≤ r := fun hle => h ⟨t, ht, hwt, hle⟩
-      omega
-
-theorem decided_loop_run (c : Cfg) (as : List Act) (σ : St) (hl : ∀ a ∈ as, a.isLoop = true)
-    (hi : Inv c σ) (d : Nat) (h : Decided σ d) : Decided (run c σ as) d := by
-  have := (loop_frame_run c as σ hl hi d h.1).1
-  unfold Decided at *
-  rw [this]; exact h
-
-/-- a complete visit of a waiting stage whose dependencies are all decided decides it -/
-theorem visitFull_decides (c : Cfg) (σ : St) (s : Nat) (hidle : σ.pc = .idle)
-    (hw : σ.status s = .waiting) (hdeps : ∀ d ∈ c.deps s, d ≠ s ∧ Decided σ d) :
-    (visitFull c σ s).status s ≠ .waiting := by
-  unfold visitFull
-  have hv : (step c σ (.visit s)).status s ≠ .waiting ∧ (step c σ (.visit s)).pc = .idle ∨
-      step c σ (.visit s) = { σ with pc := .check s (c.deps s) true } := by
-    simp only [step, hidle, hw, if_true]
-    split
-    · exact .inl ⟨by simp [upd_apply], rfl⟩
-    · exact .inl ⟨by simp [upd_apply], rfl⟩
-    · exact .inr rfl
-  rcases hv with ⟨h1, h2⟩ | hv
-  · rw [run_reads_idle c _ h2, step_decide_idle c _ h2]; exact h1
-  · rw [hv]
-    exact reads_finish c (c.deps s) { σ with pc := .check s (c.deps s) true } s true rfl
-      (fun d hd => hdeps d hd) (.inl ⟨rfl, hw⟩)
-
-theorem pass_decides (c : Cfg) (order : List Nat) : ∀ σ, Inv c σ → σ.pc = .idle → ∀ s ∈ order,
-    (∀ d ∈ c.deps s, d ≠ s ∧ Decided σ d) → (pass c σ order).status s ≠ .waiting := by
-  induction order with
-  | nil => intro σ _ _ s hs; cases hs
-  | cons t rest ih =>
-    intro σ hi hidle s hs hdeps
-    simp only [pass, List.foldl_cons]
-    have hi' := inv_visitFull c σ t hi
-    have hidle' := visitFull_idle c σ t hidle
-    have hdeps' : ∀ d ∈ c.deps s, d ≠ s ∧ Decided (visitFull c σ t) d := by
-      intro d hd
-      refine ⟨(hdeps d hd).1, ?_⟩
-      rw [visitFull_eq_run]
-      exact decided_loop_run c _ σ (visitActs_loop c t) hi d (hdeps d hd).2
-    -- once not waiting, it stays so through the remaining visits
-    have stays : ∀ σ', Inv c σ' → σ'.status s ≠ .waiting →
-        (List.foldl (visitFull c) σ' rest).status s ≠ .waiting := by
-      intro σ' hi'' hne
-      have h := (pass_only_loop_actions' c rest σ')
-      have := (loop_frame_run c _ σ' h.2 hi'' s hne).1
-      rw [← h.1] at this
-      show (pass c σ' rest).status s ≠ .waiting
-      rw [this]; exact hne
-    by_cases hst : s = t
-    · subst hst
-      by_cases hw : σ.status s = .waiting
-      · exact stays _ hi' (visitFull_decides c σ s hidle hw hdeps)
-      · have := (visitFull_frame c σ s hi s hw).1
-        exact stays _ hi' (by rw [this]; exact hw)
-    · have hmem : s ∈ rest := by
-        rcases List.mem_cons.mp hs with h | h
-        · exact absurd h hst
-        · exact h
-      exact ih _ hi' hidle' s hmem hdeps'
-
 /-- **C03 (progress)**: acyclic configuration, loop between two passes, nothing in flight, some
 stage (among the `n` stages) still waiting: one complete pass over the stages decides at least one
 waiting stage — the loop cannot spin for ever without a task in flight. -/
@@ -252,7 +170,7 @@ theorem C03_pass_progress (c : Cfg) (rank : Nat → Nat) (hac : Acyclic c rank) 
   have hi := inv_run c as
   generalize run c init as = σ at *
   obtain ⟨s0, hs0, hw0⟩ := hwait
-  obtain ⟨s, hs, hw, hmin⟩ := exists_min_waiting n rank (fun s => σ.status s = .waiting) (rank s0)
+  obtain ⟨s, hs, hw, hmin⟩ := exists_min_rank n rank (fun s => σ.status s = .waiting) (rank s0)
     ⟨s0, hs0, hw0, Nat.le_refl _⟩
   refine ⟨s, hs, hw, ?_⟩
   apply pass_decides c (List.range n) σ hi hidle s (List.mem_range.mpr hs)
@@ -306,9 +224,65 @@ theorem C03_condition_error_cancels (c : Cfg) (σ : St) (s : Nat) (hidle : σ.pc
     (step c σ (.visit s)).cancelled = true ∧ (step c σ (.visit s)).status s = .error := by
   simp [step, hidle, hw, he]
 
+/-! ### termination under a fair schedule -/
+
+/-- the total weight never increases along any interleaving -/
+theorem C03_total_weight_mono (c : Cfg) (n : Nat) (σ : St) (hi : Inv c σ) (as : List Act) :
+    totalW n (run c σ as) ≤ totalW n σ :=
+  sum_map_le (fun s _ => weight_run_le c as σ hi s)
+
+/-- **progress from every reachable state**: acyclic configuration over the stages `0 … n-1`, any
+interleaving `as` so far that left the loop between two passes, run not over: one fair round (all
+tasks in flight return, the loop makes one pass) strictly decreases the total weight. -/
+theorem C03_round_decreases (c : Cfg) (rank : Nat → Nat) (hac : Acyclic c rank) (n : Nat)
+    (hclosed : ∀ s, s < n → ∀ d ∈ c.deps s, d < n) (okf : Nat → Bool) (as : List Act)
+    (hidle : (run c init as).pc = .idle) (hnd : isDone n (run c init as) = false) :
+    totalW n (round c okf n (run c init as)) < totalW n (run c init as) :=
+  round_totalW_lt c rank hac n hclosed okf _ (inv_run c as) hidle hnd
+
+/-- **C03 (termination)**: under the fair schedule the `for !isDone` loop exits within `3n + 1`
+rounds, for every acyclic configuration, every outcome assignment, conditions of every kind
+(a condition that cannot be evaluated cancels the run, which also ends the loop). -/
+theorem C03_fair_terminates (c : Cfg) (rank : Nat → Nat) (hac : Acyclic c rank) (n : Nat)
+    (hclosed : ∀ s, s < n → ∀ d ∈ c.deps s, d < n) (okf : Nat → Bool) :
+    isDone n (rounds c okf n (3 * n + 1) init) = true ∨
+      (rounds c okf n (3 * n + 1) init).cancelled = true := by
+  have key : ∀ k σ, Inv c σ → σ.pc = .idle → totalW n σ < k →
+      isDone n (rounds c okf n k σ) = true ∨ (rounds c okf n k σ).cancelled = true := by
+    intro k
+    induction k with
+    | zero => intro σ _ _ h; omega
+    | succ k ih =>
+      intro σ hi hidle hk
+      simp only [rounds]
+      split
+      · rename_i h
+        simpa using h
+      · rename_i h
+        have hnd : isDone n σ = false := by
+          cases hd : isDone n σ
+          · rfl
+          · simp [hd] at h
+        have hlt := round_totalW_lt c rank hac n hclosed okf σ hi hidle hnd
+        exact ih _ (round_inv c okf n σ hi) (round_idle c okf n σ hi hidle) (by omega)
+  exact key _ init (inv_init c) rfl (by rw [totalW_init]; omega)
+
+/-- the state the fair schedule ends in is reached by an ordinary interleaving of the model -/
+theorem C03_fair_is_interleaving (c : Cfg) (okf : Nat → Bool) (n k : Nat) :
+    ∃ as, rounds c okf n k init = run c init as :=
+  rounds_is_run c okf n k init
+
 /-! ## Non-vacuity -/
 example : ∃ s, s < 4 ∧ (run exCfg2 init []).status s = .waiting ∧
     (pass exCfg2 (run exCfg2 init []) (List.range 4)).status s ≠ .waiting :=
   by refine ⟨0, ?_, ?_, ?_⟩ <;> decide
+
+-- the fair schedule on the diamond with a failing stage: hypotheses hold, the loop really needs
+-- several rounds, and it ends done (not cancelled)
+example : ∀ s, s < 4 → ∀ d ∈ exCfg2.deps s, d < 4 := by decide
+example : isDone 4 (rounds exCfg2 exOk 4 1 init) = false ∧ isDone 4 (rounds exCfg2 exOk 4 2 init) = false ∧
+    isDone 4 (rounds exCfg2 exOk 4 13 init) = true ∧ (rounds exCfg2 exOk 4 13 init).cancelled = false ∧
+    (rounds exCfg2 exOk 4 13 init).status 3 = .canceled ∧ (rounds exCfg2 exOk 4 13 init).status 2 = .done := by
+  decide
 
 end Sched
